@@ -172,6 +172,13 @@ def run(facts, tier, ctx):
                             through.append(bi2)
             oks = ok_returns(vb)
             direct_ok = [bb for bb in vb.returns()] if not oks else oks
+            if not oks:
+                # no `Ok(..)` aggregate: verify() ends in a tail call whose result is returned (`verify_field(..)` as the last
+                # expression); the Ok paths are the ones that reach such a call, the `?` exits go through from_residual
+                tails = [bi2 for bi2, t2 in vb.calls() if t2["dst"]["l"] == 0 and not t2["dst"]["p"]
+                         and (t2.get("fn") or {}).get("name") != "from_residual"]
+                if tails:
+                    direct_ok = tails
             okp, path = mpt(vb, through, 0, direct_ok) if through else (False, None)
             if okp:
                 chain.ok({"parent": p, "field": field, "child": child, "verdict": "ok", "site": hit[0].loc(hit[1], "term")})
